@@ -426,7 +426,14 @@ impl Value {
 	#[cfg(feature = "canonicalize")]
 	pub fn canonicalize_with(&mut self, buffer: &mut ryu_js::Buffer) {
 		match self {
-			Self::Number(n) => *n = NumberBuf::from_number(n.canonical_with(buffer)),
+			Self::Number(n) => {
+				// `Number::canonical_with` goes through a lossy float parser,
+				// which does not always yield the double nearest to the
+				// decimal value as RFC 8785 requires. The standard library's
+				// parser is correctly rounded.
+				let f: f64 = n.as_str().parse().unwrap();
+				*n = unsafe { NumberBuf::new_unchecked(buffer.format_finite(f).as_bytes().into()) }
+			}
 			Self::Array(a) => {
 				for item in a {
 					item.canonicalize_with(buffer)
